@@ -1,14 +1,19 @@
 import ShpanVerif.Util.Parse
 import ShpanVerif.Model.JsonFrame
+import ShpanVerif.Model.JsonText
 import ShpanVerif.Model.FileScan
 /-
 Driver handler for C20.  Case kinds (see harness/run/c20.go):
   arr <w|wi|rd> <initok 0|1> <elems>       elems := "-" | e,e,…   e := hex of the element's JSON text | "X" (unmarshalable)
       obs: out=<hex|-> init=<n|-> werr=<nil|init|marshal> back=<ok:<hexlist>|err:open|err:emit|skip>
-  rdarr <ws 0|1|2> <elems>                 a well-formed array document with white-space pattern ws
+  rdarr <ws 0|1|2|3> <elems>               a well-formed array document with white-space pattern ws (JsonText.wsOf);
+                                           the elements are arbitrary well-formed JSON texts (inner white space allowed)
       obs: ok <hexlist> | err open | err emit
-  rdobj <ws> <entries>                     entries := "-" | k:v,…  (k = hex of the escape-free key, v = hex value)
-      obs: ok <k:v list> | err open | err emit
+  rdobj <ws> <entries>                     entries := "-" | k:v,…  (k = hex of the key BODY in escaped form — the bytes
+                                           between the quotes —, v = hex value text)
+      obs: ok <k:v list> | err open | err emit     (k = hex of the DECODED key)
+  Every element / key of arr, rdarr, rdobj, lzarr cases is checked to lie inside the domain of the theorems
+  (`JsonText.isJsonText` / `strBodyOk`); a case outside gets the model output `out-of-domain` (a correspondence break).
   rdbad <arr|obj> <dochex>                 hand-made (malformed or foreign) document
   lazy <alone|field> <v:hex|empty|err|nullv|raw:hex>
       obs: m=<hex|err|-> um=<ok|err|-> opt=<some:hex|none|err|panic|-> get=<ok:hex|empty|err|panic|->
@@ -83,7 +88,21 @@ def backStr (r : Except JsonFrame.RErr (List Bytes)) : String :=
 
 def outStr (b : Bytes) : String := if b.isEmpty then "-" else hexOfBytes b
 
+/-- the documents of the harness (Model/JsonText.lean: `arrDoc`, `objDoc`, white-space patterns `wsOf`) -/
+def buildArrDoc (ws : Nat) (es : List Bytes) : Bytes := JsonText.arrDoc (JsonText.wsOf ws) es
+
+def buildObjDoc (ws : Nat) (es : List (Bytes × Bytes)) : Bytes := JsonText.objDoc (JsonText.wsOf ws) es
+
+/-- inside the domain of the C20 theorems: every element is a well-formed JSON text -/
+def inDomain (es : List Bytes) : Bool := es.all JsonText.isJsonText
+
+def inDomainEnts (es : List (Bytes × Bytes)) : Bool :=
+  es.all (fun kv => JsonText.strBodyOk kv.1 && JsonText.isJsonText kv.2)
+
+def outOfDomain : String × Bool × String := ("out-of-domain", true, "an element or key of the case is not a well-formed JSON text")
+
 def handleArr (helper : String) (initOk : Bool) (elems : List (Option Bytes)) (obs : String) : String × Bool × String :=
+  if !inDomain (elems.filterMap id) then outOfDomain else
   let enc : Option Bytes → Option Bytes := id
   let (out, initS, werr) : Bytes × String × Option JsonFrame.WErr :=
     if helper == "rd" then
@@ -104,30 +123,6 @@ def handleArr (helper : String) (initOk : Bool) (elems : List (Option Bytes)) (o
     (model, obs == want, if obs == want then "" else s!"want {want}")
   else (model, true, "n/a: failing init hook or unmarshalable element")
 
-def wsOf (ws : Nat) (i : Nat) : Bytes :=
-  match ws with
-  | 0 => []
-  | 1 => [0x20]
-  | _ => match i % 4 with | 0 => [0x0A, 0x09] | 1 => [] | 2 => [0x20, 0x20, 0x0D] | _ => [0x09]
-
-/-- "[" e1 "," e2 … "]" with white space between the tokens -/
-def buildArrDoc (ws : Nat) (es : List Bytes) : Bytes :=
-  let rec go (i : Nat) : List Bytes → Bytes
-    | [] => []
-    | [e] => wsOf ws i ++ e ++ wsOf ws (i + 1)
-    | e :: r => wsOf ws i ++ e ++ wsOf ws (i + 1) ++ [JsonFrame.bComma] ++ go (i + 2) r
-  wsOf ws 7 ++ [JsonFrame.bLBr] ++ go 0 es ++ (if es.isEmpty then wsOf ws 3 else []) ++ [JsonFrame.bRBr] ++ wsOf ws 5
-
-def buildObjDoc (ws : Nat) (es : List (Bytes × Bytes)) : Bytes :=
-  let ent (i : Nat) (kv : Bytes × Bytes) : Bytes :=
-    wsOf ws i ++ [JsonFrame.bQuote] ++ kv.1 ++ [JsonFrame.bQuote] ++ wsOf ws (i + 1) ++ [JsonFrame.bColon] ++
-      wsOf ws (i + 2) ++ kv.2 ++ wsOf ws (i + 3)
-  let rec go (i : Nat) : List (Bytes × Bytes) → Bytes
-    | [] => []
-    | [e] => ent i e
-    | e :: r => ent i e ++ [JsonFrame.bComma] ++ go (i + 4) r
-  wsOf ws 7 ++ [JsonFrame.bLBc] ++ go 0 es ++ (if es.isEmpty then wsOf ws 3 else []) ++ [JsonFrame.bRBc] ++ wsOf ws 5
-
 def parseEntries (s : String) : Option (List (Bytes × Bytes)) :=
   if s == "-" then some []
   else (s.splitOn ",").mapM (fun t => match t.splitOn ":" with
@@ -136,8 +131,8 @@ def parseEntries (s : String) : Option (List (Bytes × Bytes)) :=
 
 def entStr (kv : Bytes × Bytes) : String := hexOfBytes kv.1 ++ ":" ++ hexOfBytes kv.2
 
-/-- object keys of the generated documents need no escapes: decoding = dropping the quotes -/
-def unquote (k : Bytes) : Bytes := (k.drop 1).dropLast
+/-- the key as `ReadJsonObject` reports it: the key text without its quotes, escapes decoded -/
+def unquote (k : Bytes) : Bytes := JsonText.decodeKey (k.drop 1).dropLast
 
 def arrObs (r : Except JsonFrame.RErr (List Bytes)) : String :=
   match r with
@@ -238,12 +233,16 @@ Known findings are matched by input class AND failure shape:
   F2: the observation is `err toolong` and (forward) some raw line ≥ 65536 = bufio.MaxScanTokenSize, (reverse) some raw
       line + 1 ≥ 32768 = maxTokenSize/2 (below that `C20_reverse_lines` guarantees success);
   F1: reverse, the file starts with '\n', and the observation is exactly the expected lines without the first one. -/
-def fileVerdict (rev nl : Bool) (lines : List Bytes) (rawMax : Nat) (startsNL : Bool) (obs : String) : Bool × String :=
+def fileVerdict (rev nl : Bool) (lines : List Bytes) (rawMax : Nat) (startsNL : Bool) (obs : String)
+    (model : String := "err toolong") : Bool × String :=
   if rev && !nl && !lines.isEmpty then (true, "n/a: reverse over a file without trailing newline")
   else
     let want := fmtLines true (if rev then lines.reverse else lines)
     if obs == want then (true, "")
-    else if obs == "err toolong" && ((!rev && rawMax ≥ realMax) || (rev && rawMax + 1 ≥ realMax / 2)) then
+    -- F2 is the failure the model of the unchanged scanner predicts for this very file; a `token too long` the model
+    -- does not predict is a different violation (e.g. a 65535-byte line that the unchanged reverse scanner reads)
+    else if obs == "err toolong" && model == "err toolong" &&
+        ((!rev && rawMax ≥ realMax) || (rev && rawMax + 1 ≥ realMax / 2)) then
       (false, s!"KF:F2 line of {rawMax} bytes; want {want.take 200}")
     else if rev && startsNL && obs == fmtLines true (lines.drop 1).reverse then
       (false, s!"KF:F1 leading empty line; want {want.take 200}")
@@ -269,8 +268,9 @@ def handleFile (ts : List String) (obs : String) : String × Bool × String :=
       let rawMax := ((List.range n).zip lens).foldl
         (fun m (i, len) => max m (len + (if crlf && (i + 1 < n || nl) then 1 else 0))) 0
       let startsNL := match f with | b :: _ => b == FileScan.NL | [] => false
-      let (ok, why) := fileVerdict rev (nl || n == 0) lines rawMax startsNL obs
-      (runModel rev f, ok, why)
+      let m := runModel rev f
+      let (ok, why) := fileVerdict rev (nl || n == 0) lines rawMax startsNL obs m
+      (m, ok, why)
   | _ => ("bad-case", false, "unparsable case")
 
 def handleRaw (dir hex : String) (obs : String) : String × Bool × String :=
@@ -282,8 +282,9 @@ def handleRaw (dir hex : String) (obs : String) : String × Bool × String :=
     let nl := f.getLast? == some FileScan.NL || f.isEmpty
     let rawMax := (FileScan.rawLines f).foldl (fun m l => max m l.length) 0
     let startsNL := match f with | b :: _ => b == FileScan.NL | [] => false
-    let (ok, why) := fileVerdict rev nl lines rawMax startsNL obs
-    (runModel rev f, ok, why)
+    let m := runModel rev f
+    let (ok, why) := fileVerdict rev nl lines rawMax startsNL obs m
+    (m, ok, why)
 
 /-- returns (model output, spec verdict on the observation, reason) -/
 def handle (c obs : String) : String × Bool × String :=
@@ -296,6 +297,7 @@ def handle (c obs : String) : String × Bool × String :=
     match parseElems es, ws.toNat? with
     | some elems, some ws =>
       let es := elems.filterMap id
+      if !inDomain es then outOfDomain else
       let model := arrObs (JsonFrame.readArray some (JsonFrame.jsonLex (buildArrDoc ws es)))
       let want := "ok " ++ hexList es
       (model, obs == want, if obs == want then "" else s!"want {want}")
@@ -303,8 +305,10 @@ def handle (c obs : String) : String × Bool × String :=
   | ["rdobj", ws, es] =>
     match parseEntries es, ws.toNat? with
     | some ents, some ws =>
+      if !inDomainEnts ents then outOfDomain else
       let model := objObs (JsonFrame.readObject some (JsonFrame.jsonLex (buildObjDoc ws ents)))
-      let want := "ok " ++ fmtList entStr ents
+      -- the entries of the case, keys decoded by the independent key decoder
+      let want := "ok " ++ fmtList entStr (ents.map (fun kv => (JsonText.decodeKey kv.1, kv.2)))
       (model, obs == want, if obs == want then "" else s!"want {want}")
     | _, _ => ("bad-case", false, "unparsable case")
   | ["rdbad", kind, doc] =>
@@ -320,6 +324,7 @@ def handle (c obs : String) : String × Bool × String :=
     match parseElems es, ws.toNat? with
     | some elems, some ws =>
       let es := elems.filterMap id
+      if !inDomain es then outOfDomain else
       let model := arrObs (JsonFrame.readArray some (JsonFrame.jsonLex (buildArrDoc ws es)))
       let want := "ok " ++ hexList es
       (model, obs == want, if obs == want then "" else s!"want {(want.take 200)}")
